@@ -319,6 +319,19 @@ def callbackParams (cfg : Cfg) (tokenEndpoint token : Str) (refresh : Option Str
     ++ (if truthy cfg.clientSecret then sClientSecret ++ pyQuote (cfg.clientSecret.getD []) else [])
     ++ (if cfg.useIdToken then sUseIdToken else [])
 
+/-- `_OAuthPkceMiddleware.__init__`: the allow-list in force for a configured `allowed_return_origins`
+(`none` = the argument was not given), for either extracted shape of the defaulting expression -/
+def effectiveAllowWith (d : Gen.Pkce.Defaulting) (configured : Option (List Str)) : List Str :=
+  match d, configured with
+  | .isNotNone, some l => l
+  | .isNotNone, none => Gen.Pkce.defaultAllowedReturnOrigins
+  | .truthy, some (x :: r) => x :: r
+  | .truthy, _ => Gen.Pkce.defaultAllowedReturnOrigins
+
+/-- the allow-list in force, as the source currently computes it -/
+def effectiveAllow (configured : Option (List Str)) : List Str :=
+  effectiveAllowWith Gen.Pkce.allowDefaulting configured
+
 /-- `_OAuthCallbackResource.on_get`; `discovery` = the token endpoint, `exchange` = the result of the code exchange -/
 def callback (uenv : Env) (cenv : CEnv) (cfg : Cfg) (key : Bytes) (now : Int) (req : CbReq)
     (discovery : Option Str) (exchange : Exchange) : Outcome :=
